@@ -82,7 +82,9 @@ deriving Repr
 def classifyTail (r : Bytes) : Tail :=
   match skipWs r with
   | [] => .eof
-  | c :: v => if c == 61 then .assign v else if c == 35 then .hash else .other
+  | c :: v => if c == 61 then .assign v
+    else if c == 35 then (if (skipWs v).isEmpty then .hash else .other)      -- nothing may follow the `#`
+    else .other
 
 /-- closing of `{}` after the `{` has been consumed -/
 def closeCurly (r : Bytes) : Option Bytes :=
@@ -97,6 +99,7 @@ def parseSubscript (r : Bytes) : Option (Step × Bytes × Bool) :=   -- Bool: tr
   | c :: r' =>
     if isDigit c then
       let (v, r1) := scanDigits (c :: r') 0
+      if v > 2147483646 then none else      -- a subscript has to fit in an int, with room for the length
       match skipWs r1 with
       | d :: r2 =>
         if d == 43 then
